@@ -1,6 +1,7 @@
 package checks
 
 import (
+	"os"
 	"fmt"
 	"strings"
 	"sync/atomic"
@@ -78,6 +79,14 @@ var c03ConcurrentWithClose atomic.Int64
 
 var stateRank = map[string]int{"opening": 0, "open": 1, "closing": 2, "closed": 3}
 
+// debugDump appends the event log to a finding's message when VERIF_DEBUG is set.
+func debugDump(w *rig.World) string {
+	if os.Getenv("VERIF_DEBUG") == "" {
+		return ""
+	}
+	return "\nEVENTS:" + w.Tap.Dump(80)
+}
+
 // judgeLifecycle runs the per-session trace automaton over the tap log.
 func judgeLifecycle(w *rig.World, sid string, causes []string, wantClosed bool) (string, string) {
 	evs := w.Tap.Of(sid)
@@ -134,7 +143,7 @@ func judgeLifecycle(w *rig.World, sid string, causes []string, wantClosed bool) 
 	}
 	if closes == 0 {
 		if wantClosed {
-			return "c03-no-close-event", fmt.Sprintf("causes %v were injected; state %s, no close event (trace %v)", causes, st, trace)
+			return "c03-no-close-event", fmt.Sprintf("causes %v were injected; state %s, no close event (trace %v)%s", causes, st, trace, debugDump(w))
 		}
 		return "", ""
 	}
@@ -147,7 +156,7 @@ func judgeLifecycle(w *rig.World, sid string, causes []string, wantClosed bool) 
 		}
 	}
 	if !ok {
-		return "c03-close-reason-not-attributable:" + reason, fmt.Sprintf("close reason %q cannot come from the injected causes %v", reason, causes)
+		return "c03-close-reason-not-attributable:" + reason, fmt.Sprintf("close reason %q cannot come from the injected causes %v%s", reason, causes, debugDump(w))
 	}
 	if st != "closed" {
 		return "c03-close-event-but-state:" + st, fmt.Sprintf("close event emitted, ready state %s", st)
@@ -555,6 +564,14 @@ func TestC03(t *testing.T) {
 			cases = append(cases, c)
 		}
 	}
+	if sh := os.Getenv("VERIF_C03_SHAPE"); sh != "" {
+		// debugging aid: many copies of one case shape, e.g. polling/transport-error/none/1
+		f := strings.Split(sh, "/")
+		cases = nil
+		for i := 0; i < 40000; i++ {
+			cases = append(cases, c03Case{Transport: f[0], Causes: strings.Split(f[1], ","), Window: f[2], Buffered: f[3] == "1", Order: []int{0, 0, 0, 0}})
+		}
+	}
 	r.Exhaustive("all single causes and all ordered pairs of the 7 close causes x 3 transports x hooked windows x both release orders (cause pair space only; schedules outside the hooked windows are sampled)")
 	if r.Lane == 0 {
 		for k := 0; k < r.N(4, 100); k++ {
@@ -586,13 +603,12 @@ func TestC03(t *testing.T) {
 			}
 		}
 	}
-	rng := r.Rand(33)
 	for i, c := range cases {
 		if !r.Mine(i) || !r.Only(i) {
 			continue
 		}
 		c.Rev = 4
-		if c.Transport != "webtransport" && rng.IntN(4) == 0 {
+		if c.Transport != "webtransport" && r.CaseRand(33, i).IntN(4) == 0 {
 			c.Rev = 3
 		}
 		if !r.Thorough() {
